@@ -456,7 +456,7 @@ fn hist_actions() -> Vec<H> {
 fn histories(ctx: &Ctx, rep: &mut Report) {
     let acts = hist_actions();
     let k = acts.len() as u64;
-    let maxlen = if ctx.thorough() { 5 } else { 4 };
+    let maxlen = if ctx.thorough() { 6 } else { 5 };
     let n = mccore::strings_upto_count(k, maxlen);
     ctx.family(
         rep,
